@@ -135,8 +135,8 @@ Proof. split; vm_compute; reflexivity. Qed.
    Base/BridgeAggsWindow.v proves that, with the interface instantiated by the frames of DF/Window.v, the state component
    they return is the model's on_new / on_old and the value they return is `fin` of that state (repaired scalar variant:
    mean_agg true true, var_agg true true ddof); f2onum: a float result as the model's onum, infinities kept apart. *)
-From SZ Require Import Base.AggPrims Base.BridgeAggsWindow.
-From SZ Require Gen.KA_Sum Gen.KA_Count Gen.KA_Size Gen.KA_Mean Gen.KA_Var Gen.KA_Accumulator.
+From SZ Require Import Base.AggPrims Base.BridgeAggsWindow Base.BridgeAggsIloc.
+From SZ Require Gen.KA_Sum Gen.KA_Count Gen.KA_Size Gen.KA_Mean Gen.KA_Var Gen.KA_Accumulator Gen.KA_DiffIloc.
 Theorem C07_bridge_Sum :
   (* sum_on_new *)
   (forall acc new,
@@ -208,9 +208,11 @@ Theorem C07_bridge_Var :
   (forall ddof, raises_on_pyint (var_agg true true ddof) = false).
 Proof. exact (conj bridge_w_var_on_new (conj bridge_w_var_on_old (conj bridge_w_var_initial (conj bridge_w_var_compute_result bridge_w_var_total)))). Qed.
 Print Assumptions C07_bridge_Var.
-Theorem C07_bridge_accumulator :
+Theorem C07_bridge_diff :
   (* diff_expanding *)
-  (forall dfs new, Some (Gen.KA_Accumulator.gen_diff_expanding window_ops dfs new) = diff WE dfs new).
-Proof. exact bridge_w_diff_expanding. Qed.
-Print Assumptions C07_bridge_accumulator.
+  (forall dfs new, Some (Gen.KA_Accumulator.gen_diff_expanding window_ops dfs new) = diff WE dfs new) /\
+  (* diff_iloc *)
+  (forall N dfs new, Gen.KA_DiffIloc.gen_diff_iloc window_ops dfs new (Z.of_nat N) = Some (diff_iloc N dfs new)).
+Proof. exact (conj bridge_w_diff_expanding bridge_w_diff_iloc). Qed.
+Print Assumptions C07_bridge_diff.
 (* ---- aggregation bridges (harness/mkprops_aggs.py): end ---- *)
